@@ -114,6 +114,59 @@ FIELDMERGE = {
                            'block': _merge_slices_step},
 }
 
+
+# ------------------------------------------------------------------------------------------------ insert: the accumulation
+def _acc_expr(e):
+    """the right-hand side of `out[out_slice] += …` as a term over {data, weight, *, |·|²}: `field.data[field_slice]` is the
+    data, `np.abs(X**2)` / `np.abs(X)**2` / `abs(X)**2` all mean |X|² (equal for complex numbers), a bare `np.abs(X)` or
+    anything else is refused"""
+    t = ast.unparse(e)
+    if t == 'field.data[field_slice]': return '.data'
+    if t == 'weight': return '.weight'
+    if isinstance(e, ast.BinOp) and isinstance(e.op, ast.Mult): return f'(.mul {_acc_expr(e.left)} {_acc_expr(e.right)})'
+    def is_abs(c): return isinstance(c, ast.Call) and ast.unparse(c.func) in ('np.abs', 'abs', 'np.absolute') and len(c.args) == 1 and not c.keywords
+    def is_sq(b): return isinstance(b, ast.BinOp) and isinstance(b.op, ast.Pow) and isinstance(b.right, ast.Constant) and b.right.value == 2
+    if is_abs(e) and is_sq(e.args[0]): return f'(.nsq {_acc_expr(e.args[0].left)})'
+    if is_sq(e) and is_abs(e.left): return f'(.nsq {_acc_expr(e.left.args[0])})'
+    raise Refuse(f'insert: accumulated expression not understood: {t[:80]}')
+
+def generate_accum(repo):
+    """Gen/FieldAccum.lean: the two accumulation statements at the end of `lentil.field.insert`
+    (`if intensity: out[out_slice] += … else: out[out_slice] += …`) as terms the model evaluates (`Lentil.insertTerm`)"""
+    import os
+    mod = ast.parse(open(os.path.join(repo, 'lentil/field.py')).read())
+    fn = [n for n in mod.body if isinstance(n, ast.FunctionDef) and n.name == 'insert']
+    if not fn: raise Refuse('field.py: insert not found')
+    body = [s for s in fn[0].body if not (isinstance(s, ast.Expr) and isinstance(s.value, ast.Constant))]
+    if len(body) < 3 or not isinstance(body[-1], ast.Return) or ast.unparse(body[-1].value) != 'out': raise Refuse('insert: does not end in `return out`')
+    br = body[-2]
+    if not (isinstance(br, ast.If) and ast.unparse(br.test) == 'intensity' and len(br.body) == 1 and len(br.orelse) == 1):
+        raise Refuse('insert: final `if intensity:` with one statement per branch not found')
+    terms, inplace = [], []
+    for st in (br.body[0], br.orelse[0]):
+        if isinstance(st, ast.AugAssign) and isinstance(st.op, ast.Add): inplace.append(True)
+        elif isinstance(st, ast.Assign) and len(st.targets) == 1: inplace.append(False)
+        else: raise Refuse('insert: accumulation statement is neither `+=` nor `=`: ' + ast.unparse(st)[:80])
+        tgt = st.target if isinstance(st, ast.AugAssign) else st.targets[0]
+        if ast.unparse(tgt) != 'out[out_slice]': raise Refuse('insert: accumulation target changed: ' + ast.unparse(tgt)[:60])
+        terms.append(_acc_expr(st.value))
+    b = lambda x: 'true' if x else 'false'
+    text = f"""/-- terms of the accumulation statements of `lentil.field.insert` -/
+inductive AccExpr where
+  | data | weight
+  | mul (a b : AccExpr)
+  | nsq (a : AccExpr)
+deriving Repr, DecidableEq
+
+/-- translated from `field.py:insert`: `if intensity: out[out_slice] += <this>` -/
+def insertAccumIntensity : AccExpr := {terms[0]}
+/-- translated from `field.py:insert`: `else: out[out_slice] += <this>` -/
+def insertAccumField : AccExpr := {terms[1]}
+/-- both statements accumulate in place (`+=`) rather than overwrite (`=`): (intensity branch, field branch) -/
+def insertAccumInPlace : Bool × Bool := ({b(inplace[0])}, {b(inplace[1])})
+"""
+    return text, ['insert: accumulation statements of both branches']
+
 FIELDDISPATCH = {
     # Field.__mul__: `if self.size == 1 and other.size == 1:` -> _mul_scalar, else _mul_array
     '__mul__#both_one': {'py_name': '__mul__', 'lean_name': 'mulBothOne', 'params': [('self', _SZ), ('other', _SZ)],
@@ -137,6 +190,7 @@ FIELDDISPATCH = {
 }
 
 MODULES = [
-    {'name': 'FieldDispatch', 'src': 'lentil/field.py', 'sigs': FIELDDISPATCH, 'props': ['C06', 'C07', 'C02', 'C03'], 'imports': []},
-    {'name': 'FieldMerge', 'src': 'lentil/field.py', 'sigs': FIELDMERGE, 'props': ['C06', 'C07', 'C02', 'C03'], 'imports': []},
+    {'name': 'FieldAccum', 'src': 'lentil/field.py', 'generator': generate_accum, 'props': ['C06', 'C07', 'C02', 'C03', 'C04', 'C05', 'C09'], 'imports': []},
+    {'name': 'FieldDispatch', 'src': 'lentil/field.py', 'sigs': FIELDDISPATCH, 'props': ['C06', 'C07', 'C02', 'C03', 'C04', 'C05', 'C09'], 'imports': []},
+    {'name': 'FieldMerge', 'src': 'lentil/field.py', 'sigs': FIELDMERGE, 'props': ['C06', 'C07', 'C02', 'C03', 'C04', 'C05', 'C09'], 'imports': []},
 ]
